@@ -51,6 +51,10 @@ type Engine[P any] struct {
 	// RaceIsViolation: a race-detector report with a frame of the library is
 	// a violation of this property (kind data-race).
 	RaceIsViolation bool
+	// Relevant filters the probe / fault tables of an engine that serves
+	// several properties down to the counters that can be non-zero in this
+	// property's scenario (nil: all).
+	Relevant func(name string) bool
 }
 
 // KnownFinding is one entry of /verif/known_findings.json.
@@ -81,9 +85,16 @@ type Replay struct {
 	// deterministic (for example it depends on Go map iteration order); the
 	// violation was reproduced in ReproRate of the re-executions and a replay
 	// may need up to Attempts executions to show it again.
-	Attempts  int             `json:"replay_attempts,omitempty"`
-	ReproRate string          `json:"reproduction_rate,omitempty"`
-	Trace     []string        `json:"trace,omitempty"`
+	// Prefix replay: the violation only shows after the runs 0..Run of this
+	// worker seed were executed in one process (the library keeps state
+	// across runs). Replaying means re-executing that whole prefix.
+	Prefix    bool     `json:"prefix_replay,omitempty"`
+	Tier      string   `json:"tier,omitempty"`
+	Race      bool     `json:"race_binary,omitempty"`
+	EngineEnv string   `json:"engine_env,omitempty"`
+	Attempts  int      `json:"replay_attempts,omitempty"`
+	ReproRate string   `json:"reproduction_rate,omitempty"`
+	Trace     []string `json:"trace,omitempty"`
 }
 
 // WorkerStats is written by every worker and merged by the driver.
@@ -259,6 +270,20 @@ func AbandonDeadlock(v Violation, trace []string) {
 
 var flushStats func()
 
+// Thorough is set for the thorough tier: generators draw larger plans.
+var Thorough bool
+
+// Scale returns n in the quick tier and about twice (big = true: three times) n in the thorough tier.
+func Scale(n int, big bool) int {
+	if !Thorough {
+		return n
+	}
+	if big {
+		return 3 * n
+	}
+	return 2 * n
+}
+
 // AbandonInternal gives up the process with the internal-error code.
 func AbandonInternal(msg string) {
 	fmt.Fprintf(os.Stderr, "SIM-FATAL %s; plan=%s\n", msg, currentPlanJSON)
@@ -282,6 +307,7 @@ func firstLines(s string, n int) string {
 // RunWorker is the worker main loop for one engine.
 func RunWorker[P any](t *testing.T, cfg Config, eng *Engine[P]) {
 	currentCfg = cfg
+	Thorough = cfg.Tier == "thorough" && cfg.Mode == "search"
 	currentEngine = eng.Name
 	known := loadKnown(cfg.KnownPath, eng.Property)
 	exec := func(p *P, trace bool) *Result {
@@ -307,6 +333,37 @@ func RunWorker[P any](t *testing.T, cfg Config, eng *Engine[P]) {
 		return res
 	}
 	switch cfg.Mode {
+	case "prefix":
+		// re-execute the runs 0..Run of a worker seed in this fresh process
+		b, err := os.ReadFile(cfg.ReplayPath)
+		if err != nil {
+			os.Exit(ExitInternal)
+		}
+		var rp Replay
+		if json.Unmarshal(b, &rp) != nil {
+			os.Exit(ExitInternal)
+		}
+		Thorough = rp.Tier == "thorough"
+		wseed := DeriveSeed(rp.VerifSeed, propNum(eng.Property), uint64(rp.Worker))
+		want := rp.Violation.Sig()
+		for i := 0; i <= rp.Run; i++ {
+			plan := eng.Gen(NewRng(DeriveSeed(wseed, uint64(i))))
+			res := exec(plan, i == rp.Run)
+			if i%64 == 5 {
+				exec(plan, false) // the search re-executed these plans too
+			}
+			for _, v := range res.Violations {
+				if v.Sig() == want && i >= rp.Run-0 {
+					fmt.Printf("REPLAY-REPRODUCED %s after the %d runs of worker seed (%d, worker %d): %s\n", v.Sig(), i+1, rp.VerifSeed, rp.Worker, firstLines(v.Detail, 12))
+					if cfg.Mode == "prefix" && os.Getenv("VERIF_TRACE") != "" {
+						fmt.Println(strings.Join(res.Trace, "\n"))
+					}
+					os.Exit(ExitViolation)
+				}
+			}
+		}
+		fmt.Println("REPLAY-PASS")
+		os.Exit(ExitOK)
 	case "genplan":
 		// write the plan of run VERIF_RUNIDX as a replay file (debugging aid)
 		wseed := DeriveSeed(cfg.Seed, propNum(eng.Property), uint64(cfg.Worker))
@@ -359,10 +416,14 @@ func RunWorker[P any](t *testing.T, cfg Config, eng *Engine[P]) {
 	debug.SetGCPercent(400)
 	write := func() {
 		for i, n := range eng.ProbeNames {
-			st.Probes[n] = probes[i]
+			if eng.Relevant == nil || eng.Relevant(n) || probes[i] != 0 {
+				st.Probes[n] = probes[i]
+			}
 		}
 		for i, n := range eng.FaultNames {
-			st.Faults[n] = faults[i]
+			if eng.Relevant == nil || eng.Relevant(n) || faults[i] != 0 {
+				st.Faults[n] = faults[i]
+			}
 		}
 		st.DistinctExact = dist.Exact()
 		st.DistinctSat = dist.Sat
@@ -552,6 +613,7 @@ func RunWorker[P any](t *testing.T, cfg Config, eng *Engine[P]) {
 		ob, _ := json.Marshal(plan)
 		orp := rp
 		orp.Plan, orp.TraceHash, orp.Trace, orp.Shrunk = ob, "", nil, 0
+		orp.Tier, orp.Race, orp.EngineEnv = cfg.Tier, RaceBuild, os.Getenv("VERIF_ENGINE")
 		if orp.Attempts < 4 {
 			orp.Attempts = 4
 		}
